@@ -3,6 +3,8 @@ package eng
 import (
 	"fmt"
 	"reflect"
+	"sort"
+	"strconv"
 	"strings"
 
 	"verif/harness/internal/sx"
@@ -14,6 +16,9 @@ type TOpts struct {
 	Msg       *string
 	Params    [][2]string // nil = not given
 	HasParams bool
+	// MsgFromParams: the test carries a MessageFunc that renders the issue's Params at the moment it is called
+	// ("P[k=v ...]", keys sorted); the wire carries the rendering the test's own parameters must give
+	MsgFromParams bool
 }
 
 func (o TOpts) Sx() *sx.Node {
@@ -80,7 +85,12 @@ func (t TestSpec) Sx(ext *Ext) *sx.Node {
 	case "fn":
 		items = append(items, sx.I(t.N), sx.I(t.R))
 	}
-	items = append(items, t.Opts.Sx())
+	o := t.Opts
+	if o.MsgFromParams {
+		m := t.paramsRendering()
+		o.Msg = &m
+	}
+	items = append(items, o.Sx())
 	return sx.T("t", items...)
 }
 
@@ -351,4 +361,49 @@ func oneOfGoValue(ds []D) any {
 		out[i] = dGoValue(d)
 	}
 	return out
+}
+
+// paramsRendering: what a MessageFunc that prints e.Params must see for this test ("P[k=v ...]", keys sorted)
+func (t TestSpec) paramsRendering() string {
+	kv := map[string]string{}
+	if t.Opts.HasParams {
+		for _, p := range t.Opts.Params {
+			kv[p[0]] = p[1]
+		}
+	} else {
+		switch t.Name {
+		case "min", "max", "len":
+			kv[t.Name] = strconv.FormatInt(t.N, 10)
+		case "prefix", "suffix":
+			kv[t.Name] = t.S
+		case "contains":
+			kv["contained"] = t.S
+		}
+	}
+	return RenderParams(kv)
+}
+
+// ParamsRenderable: tests whose built-in parameters paramsRendering knows
+func (t TestSpec) ParamsRenderable() bool {
+	switch t.Name {
+	case "min", "max", "len", "prefix", "suffix", "contains":
+		return true
+	}
+	return false
+}
+
+func RenderParams(kv map[string]string) string {
+	keys := make([]string, 0, len(kv))
+	for k := range kv {
+		keys = append(keys, k)
+	}
+	sort.Strings(keys)
+	out := "P["
+	for i, k := range keys {
+		if i > 0 {
+			out += " "
+		}
+		out += k + "=" + kv[k]
+	}
+	return out + "]"
 }
